@@ -20,10 +20,17 @@ history (no bound anywhere):
 * `…_self_id`        self copy-assignment and self-swap return the identical slot contents;
 * `rotate_schedule_in_range`, `self_move_of_value_is_error`  the two facts the above rest on that are
                      worth stating on their own.
+* `alt_…_partial`, `alt_assign_own_counterexample`  the variant theorems exclude one operation, the
+                     converting assignment of a variant from its own live alternative
+                     (`v = get<index()>(v)`): the code destroys the alternative before copying from it
+                     (known finding F-C03-variant-assign-own-alternative); `xvalid` rejects exactly
+                     that operation and the counterexample theorem shows the model running into
+                     `useDead` on it.
 Proofs: TetlProofs/C03/Prim.lean, Rotate.lean, Vec.lean, VarFn.lean, Sets.lean.
 -/
 import TetlProofs.C03.Vec
 import TetlProofs.C03.VarFn
+import TetlProofs.C03.Sets
 namespace Tetl.C03
 
 /-- a history is valid when every operation meets its documented precondition in the state in
@@ -105,9 +112,43 @@ theorem vec_copy_assign_self_id (k : Kind) (cap : Nat) (s : St) (t : Bool) :
     vstep .sv k cap s t .cassignSelf = .ok s := by
   simp [vstep]
 
+/-! ## static_set, flat_set<static_vector> -/
+
+theorem set_step_safe (fam : SFam) (k : Kind) (cap : Nat) (s : St) (t : Bool) (op : SOp)
+    (hi : VecInv cap s) (hv : svalid fam cap s t op = true) :
+    ∃ s', sstep fam k cap s t op = .ok s' ∧ VecInv cap s' :=
+  sstep_inv fam k cap s t op hi hv
+
+example : VecInv 3 (St.init 3 0 0) ∧ svalid .fs 3 (St.init 3 0 0) false (.insm 4) = true :=
+  ⟨vinit_inv 3, by decide⟩
+
+theorem set_reach_inv {fam : SFam} {k : Kind} {cap : Nat} {s : St} (h : SReach fam k cap s) : VecInv cap s :=
+  sreach_inv h
+
+theorem set_history_safe (fam : SFam) (k : Kind) (cap : Nat) (ops : List (Bool × SOp)) (s : St)
+    (hi : VecInv cap s) (hv : histValid (svalid fam cap) (sstep fam k cap) s ops = true) :
+    ∃ s' s'', runOps (sstep fam k cap) s ops = .ok s' ∧ VecInv cap s' ∧
+      vfinish cap s' = .ok s'' ∧ AllDead s''.mem ∧ s''.mem.cnt.constructed = s''.mem.cnt.d := by
+  induction ops generalizing s with
+  | nil =>
+    obtain ⟨s'', h1, h2, h3⟩ := vfinish_ok cap s hi
+    exact ⟨s, s'', rfl, hi, h1, h2, h3⟩
+  | cons x rest ih =>
+    obtain ⟨t, op⟩ := x
+    simp only [histValid, Bool.and_eq_true] at hv
+    obtain ⟨s1, h1, hi1⟩ := sstep_inv fam k cap s t op hi hv.1
+    have hv2 := hv.2
+    rw [h1] at hv2
+    obtain ⟨s', s'', r1, r2, r3, r4, r5⟩ := ih s1 hi1 hv2
+    exact ⟨s', s'', by simp only [runOps, h1]; exact r1, r2, r3, r4, r5⟩
+
+example : histValid (svalid .fs 3) (sstep .fs .cm 3) (St.init 3 0 0)
+    [(false, .clear), (true, .mctor), (false, .extract), (false, .swapSelf)] = true := by
+  decide
+
 /-! ## variant, optional, expected -/
 
-theorem alt_step_safe (k : Kind) (trk : Nat → Bool) (nalt : Nat) (s : St) (t : Bool) (op : XOp)
+theorem alt_step_safe_partial (k : Kind) (trk : Nat → Bool) (nalt : Nat) (s : St) (t : Bool) (op : XOp)
     (hi : VarInv trk nalt s) (hv : xvalid trk nalt s t op = true) :
     ∃ s', xstep k trk s t op = .ok s' ∧ VarInv trk nalt s' :=
   xstep_inv k trk nalt s t op hi hv
@@ -116,7 +157,14 @@ example : VarInv (fun _ => true) 3 (xinit fun _ => true) ∧
     xvalid (fun _ => true) 3 (xinit fun _ => true) true (.emplaceMove 2 5) = true :=
   ⟨xinit_inv _ 3 (by decide), by decide⟩
 
-theorem alt_reach_inv {k : Kind} {trk : Nat → Bool} {nalt : Nat} (hn : 0 < nalt) {s : St}
+/-- the excluded class is not empty: on two default-constructed variants of instrumented alternatives the
+    converting assignment from the own alternative copies from storage it has just destroyed -/
+theorem alt_assign_own_counterexample :
+    xvalid (fun _ => true) 3 (xinit fun _ => true) false .assignOwn = false ∧
+    xstep .cm (fun _ => true) (xinit fun _ => true) false .assignOwn = .error (.useDead 0) :=
+  ⟨rfl, rfl⟩
+
+theorem alt_reach_inv_partial {k : Kind} {trk : Nat → Bool} {nalt : Nat} (hn : 0 < nalt) {s : St}
     (h : XReach k trk nalt s) : VarInv trk nalt s :=
   xreach_inv hn h
 
@@ -124,7 +172,7 @@ theorem alt_finish_balanced (trk : Nat → Bool) (nalt : Nat) (s : St) (hi : Var
     ∃ s', xfinish trk s = .ok s' ∧ AllDead s'.mem ∧ s'.mem.cnt.constructed = s'.mem.cnt.d :=
   xfinish_ok trk nalt s hi
 
-theorem alt_history_safe (k : Kind) (trk : Nat → Bool) (nalt : Nat) (ops : List (Bool × XOp)) (s : St)
+theorem alt_history_safe_partial (k : Kind) (trk : Nat → Bool) (nalt : Nat) (ops : List (Bool × XOp)) (s : St)
     (hi : VarInv trk nalt s) (hv : histValid (xvalid trk nalt) (xstep k trk) s ops = true) :
     ∃ s' s'', runOps (xstep k trk) s ops = .ok s' ∧ VarInv trk nalt s' ∧
       xfinish trk s' = .ok s'' ∧ AllDead s''.mem ∧ s''.mem.cnt.constructed = s''.mem.cnt.d := by
